@@ -88,6 +88,11 @@ func sanitizersForAttributeValue(c context) ([]string, error) {
 	if sc0.isEnum() && c.attr.value != "" {
 		return nil, fmt.Errorf("partial substitutions are disallowed in the %q attribute value context of a %q element", c.attr.name, c.element.name)
 	}
+	if sc0 == sanitizationContextURLSet && (c.attr.value != "" || c.attr.dynamic) {
+		// Each action is sanitized as a whole set of image candidates; text glued to it could
+		// change the URL of a candidate, e.g. `<img srcset="java{{ "script:alert(1)" }}">`.
+		return nil, fmt.Errorf("partial substitutions are disallowed in the %q attribute value context of a %q element", c.attr.name, c.element.name)
+	}
 	if sc0 == sanitizationContextStyle && c.attr.value != "" {
 		if err := validateDoesNotEndsWithCharRefPrefix(c.attr.value); err != nil {
 			return nil, fmt.Errorf("action cannot be interpolated into the %q attribute value of this %q element: %s", c.attr.name, c.element.name, err)
@@ -210,6 +215,9 @@ func validateTextAfterAction(c context, text string) error {
 	for _, elem := range elems {
 		for _, attr := range attrs {
 			sc, err := sanitizationContextForAttrVal(elem, attr, c.linkRel)
+			if err == nil && sc == sanitizationContextURLSet {
+				return fmt.Errorf("%q after an action in the %q attribute value of this %q element: partial substitutions are disallowed", text, attr, elem)
+			}
 			if err != nil || !sc.isURLorTrustedResourceURL() {
 				continue
 			}
